@@ -119,8 +119,8 @@ func TestReplay_wal_model(t *testing.T) {
 		if !thorough && pi%11 != 0 && len(prog) == 3 {
 			continue // quick tier: every eleventh program of full length
 		}
-		if thorough && pi%9 != 0 && len(prog) == 4 {
-			continue // thorough tier: all programs up to length 3, every ninth of length 4
+		if thorough && pi%40 != 0 && len(prog) == 4 {
+			continue // thorough tier: all programs up to length 3, every fortieth of length 4
 		}
 		for _, limit := range limits {
 			for failAt := -1; failAt < 3; failAt++ { // -1: no injected fault; k: the k-th writer creation after the first fails
@@ -241,14 +241,15 @@ func govcWalRun(t *testing.T, prog []govcWalOp, limit uint64, failAt int, thorou
 			}
 			full := snap[last]
 			var cuts []int
-			if thorough {
-				stepCut := 1
-				if len(full)-floor > 400 {
-					stepCut = 37
+			if thorough { // about 20 evenly spaced cut points, plus both ends of the window
+				stepCut := (len(full) - floor) / 20
+				if stepCut < 1 {
+					stepCut = 1
 				}
 				for cut := len(full) - 1; cut >= floor; cut -= stepCut {
 					cuts = append(cuts, cut)
 				}
+				cuts = append(cuts, floor, floor+1)
 			} else { // quick tier: the ends of the window and a few points inside
 				span := len(full) - floor
 				for _, c := range []int{floor, floor + 1, floor + 3, floor + 9, len(full) - 1, len(full) - 2, len(full) - 7, floor + span/2, floor + span/3} {
